@@ -32,8 +32,9 @@ def utf8 (fx : Bool) (x : Bytes) : Res Unit := if Utf8.valid x then .ok () else 
 def blob (fx : Bool) (n : Nat) : P Bytes := if fx then P.countBytesChecked n else P.countBytes n
 
 /-- `ResourceParameter` (import `strings_offset`): 16 bytes, then the name read at
-`strings_offset + local_string_offset` under `restore_position` -/
-def resourceParameter (fx : Bool) (stringsOffset : Nat) : P Unit := do
+`strings_offset + local_string_offset` under `restore_position`.  The value is the number of
+bytes read for the name (what the parameter keeps on the heap, see `Pkg.held`). -/
+def resourceParameter (fx : Bool) (stringsOffset : Nat) : P Nat := do
   let _ ← P.u32le                                   -- id
   let localOff ← P.u32le
   let len ← P.u16le
@@ -43,27 +44,31 @@ def resourceParameter (fx : Bool) (stringsOffset : Nat) : P Unit := do
   P.restorePosition (do
     P.seekStart (stringsOffset + localOff.toNat)
     let x ← P.countBytes len.toNat                  -- count from a u16
-    P.lift (utf8 fx x))
+    P.lift (utf8 fx x)
+    pure len.toNat)
 
-/-- `Shader` (imports `shader_data_offset`, `strings_offset`, `is_vertex`) -/
-def shader (fx : Bool) (sdo so : Nat) (isVertex : Bool) : P Unit := do
+def sum (l : List Nat) : Nat := l.foldl (· + ·) 0
+
+/-- `Shader` (imports `shader_data_offset`, `strings_offset`, `is_vertex`); the value is the number
+of name and blob bytes the shader keeps -/
+def shader (fx : Bool) (sdo so : Nat) (isVertex : Bool) : P Nat := do
   let dataOffset ← u32Nat
   let dataSize ← u32Nat
   let c1 ← u16Nat
   let c2 ← u16Nat
   let c3 ← u16Nat
   let c4 ← u16Nat
-  let _ ← P.count c1 (resourceParameter fx so)
-  let _ ← P.count c2 (resourceParameter fx so)
-  let _ ← P.count c3 (resourceParameter fx so)
-  let _ ← P.count c4 (resourceParameter fx so)
-  let _ ← P.restorePosition (do
+  let n1 ← P.count c1 (resourceParameter fx so)
+  let n2 ← P.count c2 (resourceParameter fx so)
+  let n3 ← P.count c3 (resourceParameter fx so)
+  let n4 ← P.count c4 (resourceParameter fx so)
+  let a ← P.restorePosition (do
     P.seekStart (sdo + dataOffset)
     blob fx (if isVertex then sdo else 0))
-  let _ ← P.restorePosition (do
+  let c ← P.restorePosition (do
     P.seekStart (sdo + dataOffset + (if isVertex then 8 else 0))
     blob fx dataSize)
-  pure ()
+  pure (sum n1 + sum n2 + sum n3 + sum n4 + a.length + c.length)
 
 /-- `MaterialParameter { id: u32, byte_offset: u16, byte_size: u16 }` -/
 def materialParameter : P Unit := do let _ ← P.u32le; let _ ← P.u16le; let _ ← P.u16le; pure ()
@@ -96,6 +101,10 @@ def shpkMagic : Bytes := [0x53, 0x68, 0x50, 0x6b]      -- "ShPk"
 structure Pkg where
   nodes : Nat                       -- `nodes.len()`
   selectors : List (Nat × Nat)      -- `node_selectors`
+  /-- total number of bytes read into parameter names and shader blobs.  Every one of them is an
+  allocation of its own and the regions they are read from may overlap, so this — not the input
+  length — is what the parsed package keeps on the heap (finding `shpk.shared-region-amplification`). -/
+  held : Nat
   deriving Repr, Inhabited
 
 /-- `(node.selector, i as u32)` for every node, in order -/
@@ -128,18 +137,18 @@ def shpkFile (fx : Bool) : P Pkg := do
   let matC ← u32Nat
   let nodeCount ← u32Nat
   let aliasCount ← u32Nat
-  let _ ← P.count vsCount (shader fx sdo so true)
-  let _ ← P.count psCount (shader fx sdo so false)
+  let vs ← P.count vsCount (shader fx sdo so true)
+  let ps ← P.count psCount (shader fx sdo so false)
   let _ ← P.count matParamCount materialParameter
   -- `count = if has_mat_param_defaults == 1 { (size as i32) >> 2 } else { 0 }`; binrw converts the
   -- count with `usize::try_from`, so a negative value is an (ordinary) error
   let _ ← (if hasDefaults == 1 then
       (if matParamsSize.toNat < 2147483648 then P.count (matParamsSize.toNat / 4) P.f32le else P.failP)
     else P.count 0 P.f32le)
-  let _ ← P.count scalarCount (resourceParameter fx so)
-  let _ ← P.count samplerCount (resourceParameter fx so)
-  let _ ← P.count textureCount (resourceParameter fx so)
-  let _ ← P.count uavCount (resourceParameter fx so)
+  let p1 ← P.count scalarCount (resourceParameter fx so)
+  let p2 ← P.count samplerCount (resourceParameter fx so)
+  let p3 ← P.count textureCount (resourceParameter fx so)
+  let p4 ← P.count uavCount (resourceParameter fx so)
   let _ ← P.count sysC key
   let _ ← P.count sceneC key
   let _ ← P.count matC key
@@ -147,7 +156,8 @@ def shpkFile (fx : Bool) : P Pkg := do
   let _ ← P.u32le                                   -- sub_view_key2_default
   let nodes ← P.count nodeCount (node sysC sceneC matC 2)
   let aliases ← P.count aliasCount nodeAlias
-  pure ⟨nodes.length, enumSelectors nodes 0 [] ++ aliases⟩
+  pure ⟨nodes.length, enumSelectors nodes 0 [] ++ aliases,
+        sum vs + sum ps + sum p1 + sum p2 + sum p3 + sum p4⟩
 
 def shpkAt (fx : Bool) (b : Bytes) : Res Pkg := P.run (shpkFile fx) b
 
@@ -161,6 +171,13 @@ def findNode (fx : Bool) (nodes : Nat) : List (Nat × Nat) → Nat → Res Unit
 def shpknodeAt (fx : Bool) (b : Bytes) (sel : Nat) : Res Unit := do
   let p ← shpkAt fx b
   findNode fx p.nodes p.selectors sel
+
+/-- input class of the recorded finding `shpk.shared-region-amplification`: the package parses and
+its names and blobs add up to more than the constant part of the allocation budget -/
+def amplifies (b : Bytes) : Bool :=
+  match (shpkAt true b).out with
+  | .ok p => decide (p.held > 16777216)
+  | _ => false
 
 /-- `ShaderPackage::from_existing` with `fixes/C18-33…35` -/
 def shpk (b : Bytes) : Res Pkg := shpkAt true b
